@@ -86,7 +86,7 @@ class Sched:
 
     def wait_parked(self, timeout=20):
         if not self.parked.acquire(timeout=timeout):
-            raise Infra("cache scheduler: reader did not reach its next step (deadlock in the code under test?)")
+            raise RuntimeError("cache scheduler: reader did not reach its next step (deadlock in the code under test?)")
 
 
 class DictProxy:
@@ -205,6 +205,7 @@ class RealCache:
                     if op[0] == "g":
                         i = op[1]
                         idx = int(str(BIG + i))          # a fresh int object on every access
+                        s.trace.append([r, "begin", i])
                         try:
                             v = readers[r][idx]
                             outs[r].append(["val", i, decode(v)])
@@ -252,3 +253,340 @@ class RealCache:
             self.real_dict._manager = None
         except Exception:
             pass
+
+
+# ----------------------------------------------------------------------------------------------
+# independent oracle (property text, no Lean model)
+# ----------------------------------------------------------------------------------------------
+def expected_loads_sequential(ops):
+    """each index is loaded when first accessed since the last clear (or the start), and never otherwise"""
+    seen, out = set(), []
+    for op in ops:
+        if op[0] == "c":
+            seen = set()
+        elif op[1] not in seen:
+            seen.add(op[1])
+            out.append(op[1])
+    return out
+
+
+def oracle(case, real):
+    fails = []
+    f = case["f"]
+    progs = case["progs"]
+    desc = f"readers={len(progs)} progs={progs} sched={case['sched']}"
+
+    def fail(key, what, exp, act):
+        fails.append(Failure(key, f"{what} [{desc}]", case, exp, act))
+
+    # transparency: every access answers like the wrapped dataset followed by the transform; no exception
+    n_gets = 0
+    for r, prog in enumerate(progs):
+        exp = [["val", op[1], f[op[1]] + TADD] if op[0] == "g" else ["cleared"] for op in prog]
+        n_gets += sum(1 for op in prog if op[0] == "g")
+        got = real["outs"][r]
+        if got != exp:
+            bad = next((g for g, e in zip(got, exp) if g != e), got[-1] if got else None)
+            if bad and bad[0] == "keyerror":
+                key = "cache:keyerror-when-disposed-between-membership-test-and-read"
+            elif bad and bad[0] == "exc":
+                key = "cache:exception"
+            else:
+                key = "cache:wrong-value"
+            fail(key, f"reader {r} observed {got} where the uncached dataset + transform gives {exp}", exp, got)
+    # transform applied on every access
+    if real["tapps"] != n_gets and not fails:
+        fail("cache:transform-count", f"{n_gets} accesses but the transform ran {real['tapps']} times", n_gets, real["tapps"])
+    # loads
+    if len(progs) == 1:
+        exp = expected_loads_sequential(progs[0])
+        if real["loads"] != exp:
+            key = "cache:sequential-loads"
+            fail(key, f"sequential history loaded {real['loads']}, expected (once between clears, again after a clear) {exp}", exp, real["loads"])
+    else:
+        # concurrent: a load of i is redundant-but-allowed only if i was absent at some moment of that access
+        tr = real["trace"]
+        for T, ev in enumerate(tr):
+            if ev[1] != "load":
+                continue
+            r, i = ev[0], ev[2]
+            T0 = max((k for k in range(T) if tr[k][0] == r and tr[k][1] == "begin" and tr[k][2] == i), default=None)
+            if T0 is None:
+                continue
+            last_store = max((k for k in range(T0) if tr[k][1] == "store" and tr[k][2] == i), default=None)
+            present_at_T0 = last_store is not None and not any(tr[k][1] == "clear" for k in range(last_store, T0))
+            if present_at_T0 and not any(tr[k][1] == "clear" for k in range(T0, T)):
+                fail("cache:load-although-cached", f"reader {r} loaded index {i} although it was cached during the whole access", "no load", tr[T0:T + 1])
+                break
+    return fails
+
+
+# ----------------------------------------------------------------------------------------------
+# cases
+# ----------------------------------------------------------------------------------------------
+G0, G1, G2, C = ["g", 0], ["g", 1], ["g", 2], ["c"]
+PROG_PAIRS = [
+    [[G0, G0], [C]], [[G0], [G0]], [[G0, C, G0], [G0]], [[G0, G1], [C, G0]], [[G0, G0], [G0, C]], [[G0, G1, G0], [G1, G0]],
+    [[C, G0], [G0, C]], [[G0, G0, G0], [C, C]], [[G1, G0], [G0, G1]], [[G0], [C]],
+]
+PROG_TRIPLES = [[[G0, G0], [C], [G0]], [[G0, G1], [G1, C], [G0]], [[G0], [G0], [G0]], [[G0, C], [C, G0], [G0, G0]]]
+KIND_SETS = [["int"], ["int", "tuple", "dict", "str"], ["tuple", "dict"], ["str", "int"]]
+
+
+def mk_case(progs, sched, rng, nidx=None, kinds=None):
+    nidx = nidx or 1 + max([op[1] for p in progs for op in p if op[0] == "g"], default=0)
+    base = rng.randint(1, 9)
+    return {"op": "cache.run", "f": [base + 7 * i for i in range(nidx)], "t": TADD, "kinds": kinds or rng.choice(KIND_SETS),
+            "progs": progs, "sched": sched}
+
+
+def random_case(rng, max_readers=3, nidx=4, max_ops=5, max_sched=30):
+    n = rng.randint(1, max_readers)
+    progs = []
+    for _ in range(n):
+        k = rng.randint(1, max_ops)
+        progs.append([["c"] if rng.random() < 0.25 else ["g", rng.randrange(nidx)] for _ in range(k)])
+    sched = [rng.randrange(n) for _ in range(rng.randint(0, max_sched))]
+    kinds = rng.choice(KIND_SETS + [["tensor", "int"], ["ndarray", "tuple"]]) if rng.random() < 0.3 else None
+    return mk_case(progs, sched, rng, nidx=nidx, kinds=kinds)
+
+
+def signature(case, real):
+    tr = [e[1] + (":" + str(e[3]) if len(e) > 3 else "") for e in real["trace"] if e[1] not in ("begin",)]
+    return (len(case["progs"]), json.dumps(case["progs"]), tuple(tr[:40]), len(real["loads"]))
+
+
+def strip_trace(tr):
+    return [e for e in tr if e[1] != "begin"]
+
+
+# ----------------------------------------------------------------------------------------------
+# real processes (no proxies): invariants only
+# ----------------------------------------------------------------------------------------------
+class _CountingBase:
+    def __init__(self, n, counter):
+        self.n, self.counter = n, counter
+
+    def __len__(self):
+        return self.n
+
+    def __getitem__(self, i):
+        if not 0 <= i < self.n:
+            raise IndexError(i)
+        with self.counter.get_lock():
+            self.counter.value += 1
+        return (int(i) * 3 + 1, "p")
+
+
+def _hammer(ds, n, seed, n_ops, q):
+    rng = random.Random(seed)
+    bad = []
+    for k in range(n_ops):
+        try:
+            if rng.random() < 0.15:
+                ds.dispose()
+            else:
+                i = rng.randrange(n)
+                v = ds[i]
+                if v != ("T!", (i * 3 + 1, "p")):
+                    bad.append(["wrong", i, repr(v)[:60]])
+        except Exception as e:  # noqa
+            bad.append(["exc", type(e).__name__, str(e)[:60]])
+    q.put(bad)
+
+
+def process_hammer(n_procs, n_idx, n_ops, seed):
+    """real processes sharing one real cache, random gets and disposes; returns the list of deviations"""
+    import multiprocessing as mp
+    from kappadata.caching.shared_dict_dataset import SharedDictDataset
+    ctx = mp.get_context("fork")
+    counter = ctx.Value("i", 0)
+    ds = SharedDictDataset(_CountingBase(n_idx, counter), transform=transform)
+    q = ctx.Queue()
+    ps = [ctx.Process(target=_hammer, args=(ds, n_idx, seed * 100 + k, n_ops, q)) for k in range(n_procs)]
+    for p in ps:
+        p.start()
+    bad = []
+    for _ in ps:
+        bad += q.get(timeout=120)
+    for p in ps:
+        p.join(30)
+    return bad
+
+
+def dataloader_epochs(n_idx, workers):
+    """two epochs of a real DataLoader with worker processes over the shared cache: values, and loads per epoch"""
+    import multiprocessing as mp
+    import torch
+    from torch.utils.data import DataLoader
+    from kappadata.caching.shared_dict_dataset import SharedDictDataset
+    ctx = mp.get_context("fork")
+    counter = ctx.Value("i", 0)
+
+    class _B(_CountingBase):
+        def __getitem__(self, i):
+            super().__getitem__(i)
+            return torch.tensor([int(i) * 3 + 1])
+    ds = SharedDictDataset(_B(n_idx, counter), transform=lambda x: x + 1000)
+    out = []
+    for _ in range(2):
+        before = counter.value
+        vals = []
+        for b in DataLoader(ds, batch_size=2, num_workers=workers, multiprocessing_context="fork"):
+            vals += [int(x) for x in b.flatten()]
+        out.append({"vals": vals, "loads": counter.value - before})
+    ds.dispose()
+    before = counter.value
+    vals = [int(ds[i][0]) for i in range(n_idx)]
+    out.append({"vals": vals, "loads": counter.value - before})
+    return out
+
+
+class C19(PropertyCheck):
+    pid = "C19"
+    props_modules = ["KDVerif.Props.C19"]
+    extra_build = ["KDVerif.Driver.Cache"]
+    driver_main = "mains/Cache.lean"
+    anchored = ["kappadata/caching/shared_dict_dataset.py", "kappadata/caching/cached_dataset.py"]
+    design_ref = "DESIGN.md 3 (C19)"
+    technique = "Lean 4 proof over hand model (interleaving machine) + schedule-replay correspondence on the real Manager dict"
+    assumptions = [
+        "every single Manager-dict call (__contains__, __getitem__, __setitem__, clear) is atomic and linearizable",
+        "the wrapped dataset is a pure function of the index; samples survive pickling through the Manager unchanged (checked by equality)",
+        "the transform is a function of the sample",
+        "indices are hashable values compared by equality (int-like)",
+    ]
+    trusted_extra = [
+        "modelled by hand: SharedDictDataset._cached_getitem (membership test, read with KeyError fallback, load, store), dispose, "
+        "CachedDataset.__getitem__ (transform after the cache)",
+        "not modelled: the Manager server process, pickling, CachedDataset.__getattr__ forwarding, __len__",
+        "schedule replay: reader threads hold shallow copies of the real SharedDictDataset whose shared_dict is a blocking proxy around "
+        "the real Manager dict (one scheduled step per dict call) and whose wrapped dataset is a blocking counting proxy",
+    ]
+    level_text = ("Lean theorems (KDVerif.Props.C19): for every schedule of any number of readers with clears anywhere every reader has answered a "
+                  "prefix of its program exactly like dataset+transform (no exception), the dict only holds raw samples under their index, a "
+                  "reader scheduled 4*|program| times has finished; sequential histories: answers, load log = first access since last clear "
+                  "(at most once between clears, again after a clear), transform log = every access. Tied to the code by schedule replay on "
+                  "the real object (results, load log, transform count, final dict, event trace compared) + independent oracle.")
+    level_note = ("trusted: Lean kernel + standard axioms; linearizability of single Manager-dict calls; pickling fidelity (equality-checked); "
+                  "the scheduler/proxy harness. Real multi-process runs (forked readers, DataLoader workers) check the invariants only.")
+
+    def _real(self):
+        if not hasattr(self, "_rc"):
+            self._rc = RealCache()
+        return self._rc
+
+    def cases(self):
+        quick = self.tier == "quick"
+        rng = self.rng
+        out = []
+        cdir = __import__("pathlib").Path(__file__).resolve().parents[2] / "corpus" / "cache"
+        ncorp = 0
+        if cdir.exists():
+            for p in sorted(cdir.glob("*.json")):
+                out.append(json.loads(p.read_text()))
+                ncorp += 1
+        L2 = 7 if quick else 10
+        L3 = 5 if quick else 8
+        ex = []
+        for progs in PROG_PAIRS:
+            for sched in itertools.product(range(2), repeat=L2):
+                ex.append(mk_case(progs, list(sched), rng))
+        ex3 = []
+        for progs in PROG_TRIPLES:
+            for sched in itertools.product(range(3), repeat=L3):
+                ex3.append(mk_case(progs, list(sched), rng))
+        if quick:
+            rng.shuffle(ex3)
+            ex3 = ex3[:500]
+        else:
+            rng.shuffle(ex3)
+            ex3 = ex3[:8000]
+        out += ex + ex3
+        nex = len(ex) + len(ex3)
+        for _ in range(250 if quick else 2000):          # sequential histories
+            out.append(random_case(rng, max_readers=1, max_ops=12, max_sched=0))
+        for _ in range(450 if quick else 6000):
+            out.append(random_case(rng))
+        return out, ncorp, nex, (L2, L3)
+
+    def correspond(self):
+        res = CorrResult()
+        cases, ncorp, nex, (L2, L3) = self.cases()
+        res.rule = (f"{ncorp} corpus + {nex} schedule-exhaustive cases (all schedules of length {L2} over {len(PROG_PAIRS)} two-reader program sets; "
+                    f"schedules of length {L3} over {len(PROG_TRIPLES)} three-reader sets{' (sampled)' if self.tier == 'quick' else ''}; remaining steps drained) "
+                    "+ random sequential histories (<= 12 ops, 4 indices) + random concurrent cases (<= 3 readers, 4 indices, <= 5 ops each, "
+                    "schedules <= 30 + drain), payload types int/tuple/dict/str/tensor/ndarray; distinct = (programs, event trace)")
+        res.exhaustive = self.tier == "thorough"
+        rc = self._real()
+        reals = []
+        for case in cases:
+            real = rc.run(case)
+            reals.append(real)
+        reqs = [dict(case, sched=real["sched"]) for case, real in zip(cases, reals)]
+        answers = self.driver.run([{k: v for k, v in r.items() if k != "kinds"} for r in reqs])
+        for case, real, model in zip(cases, reals, answers):
+            res.cases += 1
+            res.nontrivial.add(signature(case, real))
+            res.bump(f"readers={len(case['progs'])}")
+            for e in real["trace"]:
+                if e[1] != "begin":
+                    res.bump("ev:" + e[1] + (":" + str(e[3]).lower() if len(e) > 3 else ""))
+            res.bump("kinds=" + "+".join(case["kinds"]))
+            impl_view = {"outs": real["outs"], "loads": real["loads"], "tapps": real["tapps"], "dict": real["dict"],
+                         "trace": strip_trace(real["trace"])}
+            model_view = {k: model.get(k) for k in ("outs", "loads", "tapps", "dict", "trace")}
+            if model.get("error") or impl_view != model_view:
+                if len(res.disagreements) < 40:
+                    res.disagreements.append(Disagreement(case, model_view if not model.get("error") else model, impl_view))
+            for f in oracle(case, real):
+                if len(res.failures) < 40 and sum(1 for g in res.failures if g.key == f.key) < 3:
+                    res.failures.append(f)
+            if len(res.samples) < 3 and len(case["progs"]) > 1 and any(e[1] == "read" and not e[3] for e in real["trace"]):
+                res.samples.append({"progs": case["progs"], "sched": real["sched"], "outs": real["outs"], "loads": real["loads"],
+                                    "trace": strip_trace(real["trace"])})
+        # real processes (invariants only)
+        for k in range(1 if self.tier == "quick" else 6):
+            bad = process_hammer(4, 3, 150 if self.tier == "quick" else 600, self.seed * 10 + k)
+            res.cases += 1
+            res.bump("real-process-hammer")
+            if bad:
+                kind = bad[0]
+                key = ("cache:keyerror-when-disposed-between-membership-test-and-read" if kind[0] == "exc" and kind[1] == "KeyError"
+                       else "cache:exception" if kind[0] == "exc" else "cache:wrong-value")
+                res.failures.append(Failure(key, f"4 real processes sharing the cache (random get/dispose): {len(bad)} deviations, first {kind}",
+                                            {"hammer": [4, 3, 600, self.seed * 10 + k]}, "no deviation", bad[:5]))
+        if self.tier != "quick":
+            eps = dataloader_epochs(7, 3)
+            res.cases += 1
+            res.bump("real-dataloader-workers=3")
+            exp = sorted(i * 3 + 1001 for i in range(7))
+            ok = (sorted(eps[0]["vals"]) == exp and sorted(eps[1]["vals"]) == exp and eps[1]["loads"] == 0 and eps[0]["loads"] >= 7
+                  and sorted(eps[2]["vals"]) == exp and eps[2]["loads"] == 7)
+            if not ok:
+                res.failures.append(Failure("cache:dataloader", "DataLoader(num_workers=3) over the shared cache: values / loads per epoch deviate",
+                                            {"dataloader": [7, 3]}, {"vals": exp, "loads": [">=7", 0, 7]}, eps))
+        res.failures.sort(key=lambda f: len(json.dumps(f.input)))
+        return res
+
+    def replay_input(self, inp):
+        if "hammer" in inp:
+            bad = process_hammer(*inp["hammer"])
+            return Failure("cache:exception", f"{len(bad)} deviations", inp, "none", bad[:5]) if bad else None
+        if "dataloader" in inp:
+            return None
+        fs = oracle(inp, self._real().run(inp))
+        return fs[0] if fs else None
+
+    def search(self, budget_s, hints):
+        t0 = time.time()
+        out = []
+        rc = self._real()
+        for h in hints:
+            if "progs" in h:
+                out += oracle(h, rc.run(h))
+        rng = random.Random(self.seed + 19)
+        while not out and time.time() - t0 < budget_s:
+            c = random_case(rng)
+            out += oracle(c, rc.run(c))
+        return out[:3]
